@@ -125,6 +125,40 @@ class Env:
         return ColdObservable(self.s, [Recorded(self.R(t), n) for t, n in msgs])
 
 
+class LateCancel:
+    """The operator's timer scheduler with BEST-EFFORT cancellation, as the scheduler contract words it: an action
+    whose due time has been reached can no longer be cancelled (on a thread-based scheduler it has already fired and
+    is merely waiting for the source's lock); earlier cancellations work.  Everything else is the wrapped
+    virtual-time scheduler."""
+
+    def __init__(self, inner):
+        self._inner = inner
+
+    def __getattr__(self, name):
+        return getattr(self._inner, name)
+
+    def _guard(self, due, d):
+        from reactivex.disposable import Disposable
+        inner = self._inner
+
+        def dispose():
+            if inner.now < due:
+                d.dispose()
+        return Disposable(dispose)
+
+    def schedule_relative(self, duetime, action, state=None):
+        inner = self._inner
+        due = inner.now + inner.to_timedelta(duetime)
+        return self._guard(due, inner.schedule_relative(duetime, action, state))
+
+    def schedule_absolute(self, duetime, action, state=None):
+        inner = self._inner
+        return self._guard(inner.to_datetime(duetime), inner.schedule_absolute(duetime, action, state))
+
+    def schedule(self, action, state=None):
+        return self.schedule_relative(0, action, state)
+
+
 def _notifs(events, term, err):
     """[(t, token)] + terminal record -> [(t, Notification)] with values already decoded"""
     from reactivex.notification import OnCompleted, OnError, OnNext
@@ -250,6 +284,24 @@ def run_window(scn: Dict[str, Any], var: Dict[str, Any], horizon: int) -> Dict[s
 
     def closing(d):
         ck = par["ck"]
+        if d == 0:
+            # notifies synchronously, inside subscribe (no scheduler hop)
+            if ck == "N" and var.get("salt", 0) % 2:
+                from reactivex.subject import BehaviorSubject
+                return BehaviorSubject("close")
+            from reactivex import Observable
+            from reactivex.disposable import Disposable
+
+            def sync_subscribe(observer, scheduler=None):
+                if ck == "N":
+                    observer.on_next("close")
+                    observer.on_next("again")
+                elif ck == "C":
+                    observer.on_completed()
+                else:
+                    observer.on_error(errs["close"])
+                return Disposable()
+            return Observable(sync_subscribe)
         if ck == "N":
             # a second notification must not matter: only the first one closes
             return env.cold([(d, OnNext("close")), (d + 1, OnNext("again"))])
@@ -274,6 +326,8 @@ def run_window(scn: Dict[str, Any], var: Dict[str, Any], horizon: int) -> Dict[s
     buf = var["buf"]
     name = WINDOW_OPS[fam][1 if buf else 0]
     kw = {"scheduler": env.s} if var.get("sched_arg") and fam in ("time", "toc") else {}
+    if var.get("late_cancel") and fam in ("time", "toc"):
+        kw = {"scheduler": LateCancel(env.s)}
     short = var.get("short", False)
     if fam == "count":
         args = (par["count"],) if short and par["count"] == par["skip"] else (par["count"], par["skip"])
@@ -736,7 +790,10 @@ def sample_window_scns(rng, fam: str, c: Dict[str, Any], n: int) -> List[Dict[st
         elif fam == "bound":
             par = {"z": 0}
         elif fam == "when":
-            par = {"durs": [pick("Durs") for _ in range(rng.randint(1, 2))], "ck": pick("CKinds"), "fr": fr(2)}
+            durs = [pick("Durs") for _ in range(rng.randint(1, 2))]
+            if c.get("ZeroDur") and len(durs) == 2 and rng.random() < 0.4:
+                durs[rng.randrange(2)] = 0
+            par = {"durs": durs, "ck": pick("CKinds"), "fr": fr(2)}
         else:
             par = {"durs": [pick("Durs") for _ in aux], "ck": pick("CKinds"), "fr": fr(len(aux))}
         dsp = rng.randint(0, c["MaxT"]) if c.get("Disposes") and rng.random() < 0.5 else inf
